@@ -21,6 +21,7 @@ struct EigenAssert : public std::runtime_error
 #include "ir_run.h"
 #include <Spectra/SymEigsSolver.h>
 #include <Spectra/GenEigsSolver.h>
+#include <Spectra/HermEigsSolver.h>
 #include <Spectra/MatOp/DenseSymMatProd.h>
 #include <Spectra/MatOp/DenseGenMatProd.h>
 #include <Spectra/Util/SimpleRandom.h>
@@ -225,6 +226,58 @@ static void mode_sort(const Desc& d)
     out().put(e);
 }
 
+// Call-site purity (C19): the start vector of a default init() is the Park-Miller stream of seed 0, for the first
+// object, for a second object of the same type, and for a repeated init() on the same object.
+template <typename S>
+struct RecOp
+{
+    typedef S Scalar;
+    int n;
+    mutable std::vector<std::vector<S> > seen;
+    mutable bool rec;
+    explicit RecOp(int n_) : n(n_), rec(false) {}
+    Eigen::Index rows() const { return n; }
+    Eigen::Index cols() const { return n; }
+    void perform_op(const S* x, S* y) const
+    {
+        if (rec)
+        {
+            seen.push_back(std::vector<S>(x, x + n));
+            rec = false;
+        }
+        for (int i = 0; i < n; i++)
+            y[i] = x[i] * S((double) (i + 1));
+    }
+};
+inline void push_w(std::vector<ll>& w, double v) { w.push_back((ll) std::floor(((LD) v + 0.5L) * 16777216.0L)); }
+inline void push_w(std::vector<ll>& w, const std::complex<double>& v)
+{
+    push_w(w, v.real());
+    push_w(w, v.imag());
+}
+template <typename Solver, typename S>
+static void initvec_rows(const char* cls)
+{
+    const int n = 12;
+    RecOp<S> op(n);
+    for (int obj = 0; obj < 2; obj++)
+    {
+        Solver eigs(op, 2, 6);
+        for (int rep = 0; rep < 2; rep++)
+        {
+            op.rec = true;
+            eigs.init();
+            std::vector<ll> w;
+            if (!op.seen.empty())
+                for (int i = 0; i < n; i++)
+                    push_w(w, op.seen.back()[i]);
+            Line l("InitVec");
+            l.str("cls", cls).i("obj", obj).i("rep", rep).arr("w", w);
+            out().put(l);
+        }
+    }
+}
+
 // ------------------------------------------------------------------------------------------ C19
 static const ll PM_M = 2147483647LL;
 
@@ -402,6 +455,9 @@ static void mode_rng(const Desc& d)
         l.i("same_stream", (a == b && after == after_b) ? 1 : 0).i("vec_is_len_draws", (same_single && g3.random() == after) ? 1 : 0);
         out().put(l);
     }
+    initvec_rows<SymEigsSolver<RecOp<double> >, double>("sym");
+    initvec_rows<GenEigsSolver<RecOp<double> >, double>("gen");
+    initvec_rows<HermEigsSolver<RecOp<std::complex<double> > >, std::complex<double> >("herm");
     Line e("EndRng");
     out().put(e);
 }
